@@ -14,9 +14,9 @@ import builtins as _builtins
 import z3
 
 from . import types as T
-from .sorts import B, CLS, I, NONE, S, STR_OF, SeqV, V, mkb, mki, mkr, mks
-from .state import State, Val, fresh_const, fresh_name, join
-from .types import DictT, ListT, NoneType, Opt, SeqRaw, SetT, TupleT
+from .sorts import B, CLS, I, NONE, S, STR_OF, V, mkb, mki, mkr, mks
+from .state import SeqView, State, Val, arr_concat, arr_lit, arr_slice, fresh_const, fresh_name, join
+from .types import DictT, ListT, NoneType, Opt, SetT, TupleT
 from .world import Contract, Unsupported, World, canonical_name
 
 
@@ -34,6 +34,7 @@ class Obligation:
         self.model = None
         self.raw = None
         self.expect_refuted = False  # canaries
+        self.depends = []  # ids of obligations used as lemmas
 
 
 class Outcome:
@@ -172,7 +173,9 @@ class Executor:
         st.assume(self.type_pred(v.t, v.ty))
         # tuples of fixed arity: length known
         if isinstance(v.ty, TupleT) and v.ty.items is not None:
-            st.assume(z3.Length(st.arr("$seq")[V.rid(v.t)]) == len(v.ty.items))
+            st.assume(st.arr("$len")[V.rid(v.t)] == len(v.ty.items))
+        if isinstance(v.ty, (ListT, TupleT)):
+            st.assume(st.arr("$len")[V.rid(v.t)] >= 0)
 
     # ------------------------------------------------------------------ unboxing helpers
     def as_int(self, st, v: Val, node=None, what="int operand"):
@@ -198,10 +201,20 @@ class Executor:
             st.assume(V.is_r(v.t))
         return V.rid(v.t)
 
-    def seq_of(self, st, v: Val, node=None):
-        if isinstance(v.ty, SeqRaw):
-            return v.t
-        return st.arr("$seq")[self.as_ref(st, v, node, "sequence")]
+    def seq_of(self, st, v: Val, node=None) -> SeqView:
+        oid = self.as_ref(st, v, node, "sequence")
+        n = st.arr("$len")[oid]
+        st.assume(n >= 0)
+        eh = getattr(v.ty, "elem", None)
+        if isinstance(v.ty, TupleT) and v.ty.items is not None:
+            eh = T.join_types(v.ty.items) if v.ty.items else None
+        return SeqView(n, st.arr("$el")[oid], eh)
+
+    def keys_of(self, st, d: Val, node=None) -> SeqView:
+        oid = self.as_ref(st, d, node, "dict")
+        n = st.arr("$klen")[oid]
+        st.assume(n >= 0)
+        return SeqView(n, st.arr("$kel")[oid], getattr(d.ty, "k", None))
 
     # ------------------------------------------------------------------ allocation
     def alloc_term(self, st: State):
@@ -214,19 +227,26 @@ class Executor:
     def new_object(self, st: State, cls, ty=None) -> Val:
         a = self.alloc_term(st)
         oid = self.fresh("obj", I)
-        st.assume(oid == a)
-        st.ghost["$alloc"] = a + 1
+        st.assume(oid >= a)  # some id not used before (ids below the allocation pointer are taken)
+        st.ghost["$alloc"] = oid + 1
         st.assume(CLS(oid) == self.w.classes.cid(cls))
         return Val(mkr(oid), ty if ty is not None else cls)
 
-    def new_seq(self, st: State, kind, seqterm, elem=None, items=None) -> Val:
+    def new_seq(self, st: State, kind, n, arr, elem=None, items=None) -> Val:
         if kind is tuple:
             ty = TupleT(items=items, elem=elem)
         else:
             ty = ListT(elem)
         v = self.new_object(st, kind, ty)
-        st.heap["$seq"] = z3.Store(st.arr("$seq"), V.rid(v.t), seqterm)
+        oid = V.rid(v.t)
+        st.heap["$len"] = z3.Store(st.arr("$len"), oid, n if z3.is_expr(n) else z3.IntVal(n))
+        st.heap["$el"] = z3.Store(st.arr("$el"), oid, arr)
         return v
+
+    def new_seq_lit(self, st, kind, vals, items=None) -> Val:
+        out = self.new_seq(st, kind, len(vals), arr_lit([v.t for v in vals]), elem=T.join_types([v.ty for v in vals]) if vals else None, items=items)
+        out.parts = list(vals)
+        return out
 
     def bump_alloc(self, st: State):
         """a callee may have allocated: allocation pointer moves to an unknown later point"""
@@ -257,9 +277,9 @@ class Executor:
             inner = self.truthy(st, Val(t, ty.t))
             return z3.And(z3.Not(V.is_none(t)), inner)
         if isinstance(ty, (ListT, TupleT)):
-            return z3.Length(st.arr("$seq")[V.rid(t)]) > 0
+            return st.arr("$len")[V.rid(t)] > 0
         if isinstance(ty, (DictT, SetT)):
-            return z3.Length(st.arr("$dkeys")[V.rid(t)]) > 0
+            return st.arr("$klen")[V.rid(t)] > 0
         if isinstance(ty, type):
             return self.truthy_ref(st, V.rid(t), ty)
         # unknown: full case analysis
@@ -281,29 +301,24 @@ class Executor:
                 if sc.truthy is None:
                     return TRUE
                 if sc.truthy == "len":
-                    return z3.Length(st.arr("$seq")[oid]) > 0
+                    return st.arr("$len")[oid] > 0
                 if callable(sc.truthy):
                     return sc.truthy(self, st, oid)
             if issubclass(cls, (list, tuple)):
-                return z3.Length(st.arr("$seq")[oid]) > 0
+                return st.arr("$len")[oid] > 0
             if issubclass(cls, (dict, set, frozenset)):
-                return z3.Length(st.arr("$dkeys")[oid]) > 0
+                return st.arr("$klen")[oid] > 0
         c = CLS(oid)
         out = TRUE
         for k, sc in w.schemas.items():
             if callable(sc.truthy):
                 out = z3.If(w.classes.isa(c, k), sc.truthy(self, st, oid), out)
-        out = z3.If(w.classes.isa(c, (dict, set, frozenset)), z3.Length(st.arr("$dkeys")[oid]) > 0, out)
-        out = z3.If(w.classes.isa(c, (list, tuple)), z3.Length(st.arr("$seq")[oid]) > 0, out)
+        out = z3.If(w.classes.isa(c, (dict, set, frozenset)), st.arr("$klen")[oid] > 0, out)
+        out = z3.If(w.classes.isa(c, (list, tuple)), st.arr("$len")[oid] > 0, out)
         return out
 
     def py_eq(self, st, a: Val, b: Val):
         """Python == as a z3 Bool (see DESIGN 2.5: structural on V, int/bool cross-compare, identity on objects)"""
-        if isinstance(a.ty, SeqRaw) or isinstance(b.ty, SeqRaw):
-            e = self._seq_eq(st, a, b)
-            if e is None:
-                raise Unsupported("== between a spec sequence and a non-sequence")
-            return e
         prim = (int, str, NoneType)
         if a.ty in prim and b.ty in prim and a.ty is b.ty:
             return a.t == b.t
@@ -334,13 +349,10 @@ class Executor:
         return a.t == b.t
 
     def _seq_eq(self, st, a, b):
-        if isinstance(a.ty, SeqRaw) or isinstance(b.ty, SeqRaw):
-            if isinstance(a.ty, (SeqRaw, ListT, TupleT)) and isinstance(b.ty, (SeqRaw, ListT, TupleT)):
-                return self.seq_of(st, a) == self.seq_of(st, b)
-            return None
         if isinstance(a.ty, (ListT, TupleT)) and isinstance(b.ty, (ListT, TupleT)) and type(a.ty) is type(b.ty):
-            sq = st.arr("$seq")
-            return sq[V.rid(a.t)] == sq[V.rid(b.t)]
+            va, vb = self.seq_of(st, a), self.seq_of(st, b)
+            i = z3.Int(fresh_name("eq!i"))
+            return z3.And(va.n == vb.n, z3.ForAll([i], z3.Implies(z3.And(i >= 0, i < va.n), va.at(i) == vb.at(i))))
         return None
 
     # ------------------------------------------------------------------ names
@@ -395,28 +407,37 @@ class Executor:
         return self._display(node, st, list)
 
     def _display(self, node, st, kind):
-        terms = []
-        hints = []
+        acc = SeqView(z3.IntVal(0), z3.K(I, NONE))
+        group: list[Val] = []
+        vals: list[Val] = []
+        fixed = True
+
+        def flush():
+            nonlocal acc, group
+            if group:
+                lit = SeqView(z3.IntVal(len(group)), arr_lit([g.t for g in group]))
+                acc = lit if z3.is_int_value(acc.n) and acc.n.as_long() == 0 else SeqView(acc.n + lit.n, arr_concat(acc, lit))
+                group = []
+
         for e in node.elts:
             if isinstance(e, ast.Starred):
                 sv = self.ev(e.value, st)
-                terms.append(("star", self.seq_of(st, sv, e), sv))
-                hints.append(None)
+                if sv.parts is not None and all(isinstance(p, Val) for p in sv.parts) and isinstance(sv.ty, (ListT, TupleT)):
+                    group.extend(sv.parts)
+                    vals.extend(sv.parts)
+                    continue
+                fixed = False
+                flush()
+                other = self.seq_of(st, sv, e)
+                acc = SeqView(acc.n + other.n, arr_concat(acc, other))
             else:
                 v = self.ev(e, st)
-                terms.append(("one", v.t, v))
-                hints.append(v.ty)
-        parts = [z3.Unit(t) if k == "one" else t for k, t, _ in terms]
-        if not parts:
-            seqt = z3.Empty(SeqV)
-        elif len(parts) == 1:
-            seqt = parts[0]
-        else:
-            seqt = z3.Concat(parts)
-        fixed = all(k == "one" for k, _, _ in terms)
-        out = self.new_seq(st, kind, seqt, elem=T.join_types(hints) if fixed and hints else None, items=hints if fixed and kind is tuple else None)
-        out.parts = [v for _, _, v in terms] if fixed else None
-        return out
+                group.append(v)
+                vals.append(v)
+        if fixed:
+            return self.new_seq_lit(st, kind, vals, items=[v.ty for v in vals] if kind is tuple else None)
+        flush()
+        return self.new_seq(st, kind, acc.n, acc.arr)
 
     def ev_Set(self, node, st):
         # only used for membership tests on literal sets
@@ -430,21 +451,25 @@ class Executor:
         oid = V.rid(d.t)
         has = z3.K(V, FALSE)
         mp = st.arr("$dmap")[oid]
-        keys = z3.Empty(SeqV)
+        klen = z3.IntVal(0)
+        kel = z3.K(I, NONE)
         ktys, vtys = [], []
         for k, vv in zip(node.keys, node.values):
             if k is None:
                 raise Unsupported("dict unpacking in display", node)
             kv = self.ev(k, st)
             val = self.ev(vv, st)
-            keys = z3.If(z3.Select(has, kv.t), keys, z3.Concat(keys, z3.Unit(kv.t)))
+            present = z3.Select(has, kv.t)
+            kel = z3.If(present, kel, z3.Store(kel, klen, kv.t))
+            klen = z3.If(present, klen, klen + 1)
             has = z3.Store(has, kv.t, TRUE)
             mp = z3.Store(mp, kv.t, val.t)
             ktys.append(kv.ty)
             vtys.append(val.ty)
         st.heap["$dhas"] = z3.Store(st.arr("$dhas"), oid, has)
         st.heap["$dmap"] = z3.Store(st.arr("$dmap"), oid, mp)
-        st.heap["$dkeys"] = z3.Store(st.arr("$dkeys"), oid, simp(keys))
+        st.heap["$klen"] = z3.Store(st.arr("$klen"), oid, simp(klen))
+        st.heap["$kel"] = z3.Store(st.arr("$kel"), oid, simp(kel))
         d.ty = DictT(T.join_types(ktys), T.join_types(vtys))
         return d
 
@@ -527,7 +552,11 @@ class Executor:
                 return Val(mks(z3.Concat(self.as_str(st, a, node), self.as_str(st, b, node))), str, parts=(a.parts or [a]) + (b.parts or [b]))
             if isinstance(a.ty, (ListT, TupleT)) and isinstance(b.ty, (ListT, TupleT)):
                 kind = list if isinstance(a.ty, ListT) else tuple
-                return self.new_seq(st, kind, z3.Concat(self.seq_of(st, a), self.seq_of(st, b)), elem=T.join_types([getattr(a.ty, "elem", None), getattr(b.ty, "elem", None)]))
+                va, vb = self.seq_of(st, a), self.seq_of(st, b)
+                out = self.new_seq(st, kind, va.n + vb.n, arr_concat(va, vb), elem=T.join_types([va.elem, vb.elem]))
+                if a.parts is not None and b.parts is not None and all(isinstance(p, Val) for p in a.parts + b.parts):
+                    out.parts = a.parts + b.parts
+                return out
             if a.ty in (int, bool) and b.ty in (int, bool):
                 return Val(mki(self.as_int(st, a, node) + self.as_int(st, b, node)), int)
             if a.ty is None or b.ty is None:
@@ -716,14 +745,11 @@ class Executor:
                 s = V.sval(obj.t)
                 a, ln = self.clamp_slice(z3.Length(s), lo, hi)
                 return Val(mks(z3.SubString(s, a, ln)), str)
-            if isinstance(ty, SeqRaw):
-                a, ln = self.clamp_slice(z3.Length(obj.t), lo, hi)
-                return Val(z3.Extract(obj.t, a, ln), SeqRaw(ty.elem))
             if isinstance(ty, (ListT, TupleT)) or ty in (list, tuple):
                 sq = self.seq_of(st, obj, node)
-                a, ln = self.clamp_slice(z3.Length(sq), lo, hi)
+                a, ln = self.clamp_slice(sq.n, lo, hi)
                 kind = tuple if isinstance(ty, TupleT) or ty is tuple else list
-                return self.new_seq(st, kind, z3.Extract(sq, a, ln), elem=getattr(ty, "elem", None))
+                return self.new_seq(st, kind, ln, arr_slice(sq, a), elem=sq.elem)
             raise Unsupported(f"slice of {T.tname(obj.ty)}", node)
         idx = self.ev(sl, st)
         return self.get_item(st, obj, idx, node)
@@ -734,10 +760,6 @@ class Executor:
             s = V.sval(obj.t)
             i2 = self.norm_index(st, z3.Length(s), self.as_int(st, idx, node), node, "string")
             return Val(mks(z3.SubString(s, i2, 1)), str)
-        if isinstance(ty, SeqRaw):
-            i2 = self.norm_index(st, z3.Length(obj.t), self.as_int(st, idx, node), node, "sequence")
-            v = Val(obj.t[i2], ty.elem)
-            return v
         if isinstance(ty, (ListT, TupleT)) or ty in (list, tuple):
             sq = self.seq_of(st, obj, node)
             # constant index into a fixed tuple keeps the element hint
@@ -751,8 +773,8 @@ class Executor:
                         eh = ty.items[k]
                 else:
                     eh = T.join_types(ty.items)
-            i2 = self.norm_index(st, z3.Length(sq), i_term, node, "sequence")
-            v = Val(sq[i2], eh)
+            i2 = self.norm_index(st, sq.n, i_term, node, "sequence")
+            v = Val(simp(sq.at(i2)), eh)
             self.assume_type(st, v)
             self.assume_allocated(st, v.t)
             return v
@@ -936,7 +958,8 @@ class Executor:
             return z3.Or([self.py_eq(st, item, self.w.const(p)) for p in container.py]) if container.py else FALSE
         if isinstance(ty, (ListT, TupleT)):
             sq = self.seq_of(st, container, node)
-            return z3.Contains(sq, z3.Unit(item.t))
+            i = z3.Int(fresh_name("in!i"))
+            return z3.Exists([i], z3.And(i >= 0, i < sq.n, self.py_eq(st, item, Val(sq.at(i), sq.elem))))
         if isinstance(ty, DictT):
             return st.arr("$dhas")[V.rid(container.t)][item.t]
         raise Unsupported(f"'in' on {T.tname(container.ty)}", node)
@@ -1104,11 +1127,7 @@ class Executor:
             oid = V.rid(e.t)
             for k, v in kwargs.items():
                 st.heap[k] = z3.Store(st.arr(k), oid, v.t)
-            if args:
-                sq = z3.Concat([z3.Unit(a.t) for a in args]) if len(args) > 1 else z3.Unit(args[0].t)
-            else:
-                sq = z3.Empty(SeqV)
-            tup = self.new_seq(st, tuple, sq)
+            tup = self.new_seq_lit(st, tuple, list(args))
             st.heap["args"] = z3.Store(st.arr("args"), oid, tup.t)
             return e
         raise Unsupported(f"constructor {cn} without contract", node)
@@ -1357,26 +1376,26 @@ class Executor:
                     raise Unsupported("multiple starred targets", node)
                 k = stars[0]
                 after = n - k - 1
-                self.oblige(st, z3.Length(sq) >= n - 1, f"safe.unpack@{node.lineno}", "safe", node, "enough values to unpack")
-                st.assume(z3.Length(sq) >= n - 1)
+                self.oblige(st, sq.n >= n - 1, f"safe.unpack@{node.lineno}", "safe", node, "enough values to unpack")
+                st.assume(sq.n >= n - 1)
                 for i, e in enumerate(tgt.elts):
                     if i < k:
-                        self.assign(st, e, Val(sq[i], None), node)
+                        self.assign(st, e, Val(sq.at(i), sq.elem), node)
                     elif i == k:
-                        ln = z3.Length(sq) - (n - 1)
-                        self.assign(st, e.value, self.new_seq(st, list, z3.Extract(sq, z3.IntVal(k), ln)), node)
+                        ln = sq.n - (n - 1)
+                        self.assign(st, e.value, self.new_seq(st, list, ln, arr_slice(sq, z3.IntVal(k)), elem=sq.elem), node)
                     else:
-                        self.assign(st, e, Val(sq[z3.Length(sq) - (n - i)], None), node)
+                        self.assign(st, e, Val(sq.at(sq.n - (n - i)), sq.elem), node)
                 return
-            self.oblige(st, z3.Length(sq) == n, f"safe.unpack@{node.lineno}", "safe", node, f"unpack exactly {n} values")
-            st.assume(z3.Length(sq) == n)
+            self.oblige(st, sq.n == n, f"safe.unpack@{node.lineno}", "safe", node, f"unpack exactly {n} values")
+            st.assume(sq.n == n)
             items = v.ty.items if isinstance(v.ty, TupleT) and v.ty.items is not None and len(v.ty.items) == n else None
             eh = getattr(v.ty, "elem", None)
             for i, e in enumerate(tgt.elts):
                 if v.parts is not None and len(v.parts) == n and all(isinstance(p, Val) for p in v.parts):
                     ev_ = v.parts[i]
                 else:
-                    ev_ = Val(sq[i], items[i] if items else eh)
+                    ev_ = Val(simp(sq.at(i)), items[i] if items else eh)
                     self.assume_type(st, ev_)
                     self.assume_allocated(st, ev_.t)
                 self.assign(st, e, ev_, node)
@@ -1393,17 +1412,17 @@ class Executor:
             oid = self.as_ref(st, obj, node, "dict")
             has = st.arr("$dhas")
             old_has = has[oid][idx.t]
-            keys = st.arr("$dkeys")
-            st.heap["$dkeys"] = z3.Store(keys, oid, z3.If(old_has, keys[oid], z3.Concat(keys[oid], z3.Unit(idx.t))))
+            kl, ke = st.arr("$klen"), st.arr("$kel")
+            st.heap["$kel"] = z3.Store(ke, oid, z3.If(old_has, ke[oid], z3.Store(ke[oid], kl[oid], idx.t)))
+            st.heap["$klen"] = z3.Store(kl, oid, z3.If(old_has, kl[oid], kl[oid] + 1))
             st.heap["$dhas"] = z3.Store(has, oid, z3.Store(has[oid], idx.t, TRUE))
             dm = st.arr("$dmap")
             st.heap["$dmap"] = z3.Store(dm, oid, z3.Store(dm[oid], idx.t, v.t))
             return
         if isinstance(ty, ListT):
             sq = self.seq_of(st, obj, node)
-            i2 = self.norm_index(st, z3.Length(sq), self.as_int(st, idx, node), node, "list")
-            new = z3.Concat(z3.Extract(sq, z3.IntVal(0), i2), z3.Unit(v.t), z3.Extract(sq, i2 + 1, z3.Length(sq) - i2 - 1))
-            st.heap["$seq"] = z3.Store(st.arr("$seq"), V.rid(obj.t), new)
+            i2 = self.norm_index(st, sq.n, self.as_int(st, idx, node), node, "list")
+            st.heap["$el"] = z3.Store(st.arr("$el"), V.rid(obj.t), z3.Store(sq.arr, i2, v.t))
             return
         if isinstance(ty, type):
             for k in ty.__mro__:
